@@ -251,6 +251,40 @@ def w_unionwrite(cs):
     return [djob(0x11223344), pjob(bytes([2, 1, 2, 3, 4, 5, 6, 7, 8, 0, 0, 0, 0, 0x7e])), djob(0xA1B2C3D4)]
 
 
+def w_longstr(cs):
+    T = cs.s
+
+    def job(name, text, crc):
+        d = (7).to_bytes(2, "little") + bytes([0x60]) + text + b"\x00" + crc.to_bytes(2, "little")
+        d = d + bytes(0x60 - len(d)) + name + b"\x00" + b"trailer"
+
+        def f():
+            s = io.BytesIO(d)
+            o = T(s)
+            pos = s.tell()
+            return (norm(o), pos, bytes(o.name.dereference()), s.tell(), o.dumps())
+        return f
+    # strings of several tens of bytes (longer than any plausible read block), different in every thread
+    return [job(b"first-thread-name-" + b"A" * 23, b"the text of the first thread is long " + b"x" * 9, 0x1111),
+            job(b"second-name-" + b"B" * 31, b"second thread text, of another length.", 0x2222),
+            job(b"third-" + b"C" * 19, b"3rd: " + b"z" * 37, 0x3333)]
+
+
+def w_grid(cs):
+    T = cs.s
+
+    def job(h, w, fill, crc):
+        d = bytes([h, w]) + bytes((fill + i) & 0xFF for i in range(h * w)) + crc.to_bytes(2, "little") + bytes([h]) + \
+            bytes((fill * 3 + i) & 0xFF for i in range(4 * h)) + b"\xEE"
+
+        def f():
+            s = io.BytesIO(d)
+            o = T(s)
+            return (norm(o), s.tell(), o.dumps() == d[: s.tell()], dict(o._sizes))
+        return f
+    return [job(2, 3, 0x10, 0xAAAA), job(3, 1, 0x40, 0xBBBB), job(4, 2, 0x80, 0xCCCC)]
+
+
 WORKLOADS = [
     ("expr", "struct s { uint8 n; uint8 m; char d[(n + m) * 2 - 1]; uint16 v[n]; uint8 z; };", w_expr),
     ("bits", "enum E : uint8 { A, B, C };\nstruct s { uint16 a:3; uint16 b:13; E e:4; uint8 r:4; int32 x; };", w_bits),
@@ -268,6 +302,10 @@ WORKLOADS = [
     # unary operators in lengths (the evaluator rewrites its token list for them)
     ("exprneg", "struct s { uint8 n; uint8 k; uint8 a[-(-n)]; uint8 b[n * -1 + 4]; uint8 c[~n & 3]; uint8 d[- -k]; uint8 z; };",
      w_exprneg),
+    # NUL-terminated strings much longer than a read block, in place and behind a pointer
+    ("longstr", "struct s { uint16 id; char *name; char text[]; uint16 crc; };", w_longstr),
+    # multi-dimensional arrays whose inner dimension is computed at run time (several rows share one inner array type)
+    ("grid", "struct s { uint8 h; uint8 w; uint8 cells[h][w]; uint16 crc; uint8 k; uint16 pairs[k][2]; uint8 t; };", w_grid),
     # a union whose first member is not its largest: written directly and compared with its terminator while parsing
     ("unionwrite", "union U { uint8 tag; uint32 value; uint16 half[2]; };\nstruct s { uint8 n; U items[]; uint8 tail; };",
      w_unionwrite),
@@ -275,7 +313,7 @@ WORKLOADS = [
 
 
 def build(name, text, factory, compiled):
-    ptr = "uint8" if name == "ptr" else None
+    ptr = "uint8" if name in ("ptr", "longstr") else None
     cs = lib.load(text, "<", False, compiled, ptr)
     return cs, factory(cs)
 
